@@ -216,6 +216,7 @@ class Scn:
     alias_sub: list = field(default_factory=list) # [e1, e2]: event e1 is a class attribute of a base class and the
                                                   # machine is `class Sub(Base): <e2> = Base.<e1>`: the transitions
                                                   # declared for e1 carry e2 (only) in the subclass
+    decl_style: str = "list"                      # how `event=` is written: list of names | placeholder Event() objects | "a b"
     listener_kind: str = "class"                  # class | eq (all listeners compare equal) | hooks (one generic
                                                   # class, callbacks stored as instance attributes)
 
@@ -391,6 +392,21 @@ def used_toks(scn: Scn):
     return sorted(t)
 
 
+def held_events(scn: Scn, tr: Tr):
+    """the transition's events in the order the class ends up holding them. Written as id-less `Event()` objects
+    they are re-bound one by one, in the order `add_state` met them, each removed from and appended to the
+    transition's list (`factory._update_event_references`): the list ends up in that order"""
+    if scn.decl_style == "placeholder" and not scn.alias_sub and not any(t.any for t in scn.trans):
+        first = {}      # `add_state` meets the placeholders state by state, transition by transition
+        for si in range(len(scn.states)):
+            for t in scn.trans:
+                if t.src == si:
+                    for e in t.events:
+                        first.setdefault(e, len(first))
+        return sorted(tr.events, key=lambda e: first[e])
+    return list(tr.events)
+
+
 def lst(xs):
     return ",".join(str(x) for x in xs) if xs else "-"
 
@@ -408,7 +424,7 @@ def _machine_lines(scn: Scn, live):
         sp = lambda l: ",".join(f"{c}@{o}" if o is not None else str(c) for c, o in l) if l else "-"
         cd = ",".join(f"{c}:{e}" for c, e in g["cond"]) if g["cond"] else "-"
         return (
-            f"trans src={src} tgt={tr.tgt} int={int(tr.internal)} ev={lst(tr.events)} "
+            f"trans src={src} tgt={tr.tgt} int={int(tr.internal)} ev={lst(held_events(scn, tr))} "
             f"val={lst([c for c, _ in g['validators']])} cond={cd} before={sp(g['before'])} "
             f"on={sp(g['on'])} after={sp(g['after'])}"
         )
@@ -482,7 +498,7 @@ def registry_lines(scn: Scn):
             for g in ("before", "on", "after"):
                 sp.append(tok(g, f"n{nid(f'{g}_{EVENTS[ev]}')}", REAL_PRIO["naming"], only=ev))
         sp.append(tok("after", f"n{nid('after_transition')}", REAL_PRIO["after"]))
-        return (f"tdecl src={src} tgt={tr.tgt} int={int(tr.internal)} ev={lst(tr.events)} specs={';'.join(sp)}")
+        return (f"tdecl src={src} tgt={tr.tgt} int={int(tr.internal)} ev={lst(held_events(scn, tr))} specs={';'.join(sp)}")
 
     for ti, tr in enumerate(scn.trans):
         if not tr.any:
@@ -858,6 +874,15 @@ def build(scn: Scn, rt: Runtime, cls_name=None, picklable=False):
             tl = states[tr.src].to(states[tr.tgt], **kw)
             e1 = EVENTS[scn.alias_sub[0]]
             ns[e1] = (ns[e1] | tl) if e1 in ns else tl
+        elif scn.decl_style == "placeholder" and not scn.alias_sub and not any(t.any for t in scn.trans):
+            # events declared as id-less `Event()` objects that get their id from the class attribute they are bound to
+            from statemachine import Event
+            for e in tr.events:
+                if EVENTS[e] not in ns:
+                    ns[EVENTS[e]] = Event() if e % 2 else Event(name=f"Display {e}")
+            tl = states[tr.src].to(states[tr.tgt], event=[ns[EVENTS[e]] for e in tr.events], **kw)
+        elif scn.decl_style == "spaced":
+            tl = states[tr.src].to(states[tr.tgt], event=" ".join(EVENTS[e] for e in tr.events), **kw)
         else:
             tl = states[tr.src].to(states[tr.tgt], event=[EVENTS[e] for e in tr.events], **kw)
         tls.append(tl)
